@@ -472,6 +472,17 @@ def r13(ctx):
         if op == '-=' and rhs is not None and 1800 <= (wr.val(rhs) or 0) <= 2200:
             n += 1
             ctx.ob('C06.R13', wr, nid, wr.val(rhs) == c, 'year byte stored', 'subtracts %s, decoding adds %s' % (wr.val(rhs), c))
+    # the day number (and with it the weekday) is computed from the completed year: where writeSymbols forms year - 1900 for
+    # the calendar formula, the year operand is the two-digit completion (value < 100 ? value + century : value)
+    for nid, d, rhs, op, lhs in wr.assignments():
+        if rhs is None:
+            continue
+        r = wr.nodes[wr.strip(rhs, casts=True)]
+        if r.get('k') == 'BinaryOperator' and r.get('op') == '-' and wr.val(r['rhs']) == 1900:
+            n += 1
+            has = any(wr.nodes[y]['k'] == 'ConditionalOperator' and wr.val(wr.nodes[wr.strip(wr.nodes[y]['cond'], casts=True)].get('rhs', -1)) == 100
+                      for y in wr.walk(r['lhs']))
+            ctx.ob('C06.R13', wr, nid, has, 'year handed to the calendar formula', 'a two-digit year is completed first: %s (%s)' % (has, wr.key(rhs)[:60]))
     if n < 3:
         raise AnalysisBroken('C06.R13: only %d century sites found in writeSymbols' % n)
 
